@@ -274,7 +274,7 @@ impl<'a> BoardList<'a> {
             prev: PrevBoard::Prev(self),
             board,
             three_fold: self.three_fold,
-            count: self.count(board) + 1,
+            count: self.count(board).saturating_add(1),
         }
     }
 
